@@ -823,6 +823,33 @@ def verify(run, prop, tu, contract_cls, case_filter=None, tag_extra=None):
     return total
 
 
+def sect(run, label, fn, *a, **k):
+    """CVC analogue of engine.pyvc.harness.sect: run one section of a C property driver (the verification of one function, a group of
+    spec-level lemmas, the parsing of one translation unit).  When the section's contract cannot be bound to the current code - the front
+    end cannot cut / parse the function, a loop contract names a local that is not in scope, a construct outside the engine, the exploration
+    budget of a function is exhausted, or the driver itself trips over the changed shape - the section is recorded in run.out_of_reach (the
+    property's bounded native oracle stands in for this run, engine/cli.py) instead of making the whole check undecided.  The partial
+    obligations of the section are dropped: a half-bound contract proves nothing."""
+    import os, traceback
+    n0 = len(run.obls)
+    try:
+        return fn(*a, **k)
+    except core.WallClock:
+        raise
+    except (KeyboardInterrupt, SystemExit):
+        raise
+    except Unsupported as e:
+        reason = "construct outside the engine / contract cannot be bound: %s" % (e,)
+    except Infeasible as e:
+        reason = "contract pre-state is contradictory for this code shape: %s" % (e,)
+    except Exception as e:
+        tb = traceback.extract_tb(e.__traceback__)
+        reason = "contract could not be bound to the code: %s: %s (%s)" % (type(e).__name__, str(e)[:200], "%s:%d" % (os.path.basename(tb[-1].filename), tb[-1].lineno) if tb else "")
+    del run.obls[n0:]
+    run.out_of_reach.append({"section": label, "reason": reason[:400]})
+    return None
+
+
 def _table_axioms(terms):
     """ground axioms of the uf_table symbols occurring in terms (what core.range_instances would add), computed
     from the engine's memoised symbol sets instead of a fresh walk over every (large, shared) path condition"""
